@@ -567,4 +567,114 @@ Section SLP.
       rewrite (deep1_ok _ _ H0), (deep1_ok _ _ H1). reflexivity.
     - split; apply R_empty.
   Qed.
+  (* ------------------------------------------------------------ where a ModifyIterator stands after insert() / remove() *)
+  Lemma chain_item h : forall c1 b y c2 a x, chain h a x (c1 ++ (b, y) :: c2) -> h b = Some (hd_addr c2, y).
+  Proof.
+    induction c1 as [| [e w] c1 IH]; intros b y c2 a x H; simpl in H; destruct H as [_ H].
+    - apply chain_head; auto.
+    - eapply IH; eauto.
+  Qed.
+
+  Lemma nth_error_mid {A B} (f : A -> B) (c1 : list A) (z : A) (c2 : list A) : nth_error (map f (c1 ++ z :: c2)) (length c1) = Some (f z).
+  Proof. rewrite map_app. rewrite nth_error_app2 by (rewrite map_length; lia). rewrite map_length, Nat.sub_diag. reflexivity. Qed.
+
+  Lemma mins_probe_ok s l k v : Rsl s l -> k <= length l ->
+    c11_bind (c11_bind (c11_sl_mbegin T s) (fun c => c11_bind (c11_sl_madvance T k s c) (fun c' => c11_sl_minsert T s c' v)))
+             (fun sc => c11_bind (c11_sl_mderef T (fst sc) (snd sc)) (fun x => C11_ok (Some x))) = C11_ok (Some (nth_error l k)).
+  Proof.
+    intros (cells & Hi & <-) Hk. rewrite map_length in Hk.
+    destruct (c11_split_at cells k Hk) as (c1 & c2 & -> & Hl1).
+    pose proof Hi as [(Hch & _) _].
+    unfold c11_sl_mbegin, c11_sl_next. rewrite (chain_head _ _ _ _ Hch). simpl.
+    pose proof (madvance_ok' s c1 [] c2) as Hm. simpl in Hm. rewrite Hl1 in Hm. rewrite Hm by exact Hch. simpl.
+    unfold c11_sl_minsert. cbn [fst snd].
+    destruct (insertAfter_ok s c1 c2 v Hi) as (s' & Hins & Hi' & _). rewrite Hins. simpl.
+    pose proof Hi' as [(Hch' & _) _].
+    pose proof Hch' as Hch2.
+    replace (c1 ++ (sl_free s, v) :: c2) with (c1 ++ [(sl_free s, v)] ++ c2) in Hch' by reflexivity.
+    destruct (chain_split _ _ _ _ _ Hch') as [xt Ht]. unfold c11_sl_next. rewrite Ht. simpl.
+    unfold c11_sl_mderef. cbn [fst snd]. rewrite <- Hl1.
+    destruct c2 as [| [b y] r]; cbn [hd_addr].
+    - simpl. f_equal. f_equal. symmetry. apply nth_error_None. rewrite map_length, app_length. simpl. lia.
+    - replace (c1 ++ (sl_free s, v) :: (b, y) :: r) with ((c1 ++ [(sl_free s, v)]) ++ (b, y) :: r) in Hch2 by (rewrite <- app_assoc; reflexivity).
+      unfold c11_sl_item. rewrite (chain_item _ _ _ _ _ _ _ Hch2). simpl. rewrite (nth_error_mid snd c1 (b, y) r). reflexivity.
+  Qed.
+
+  Lemma mrem_probe_ok s l k : Rsl s l -> k < length l ->
+    c11_bind (c11_bind (c11_sl_mbegin T s) (fun c => c11_bind (c11_sl_madvance T k s c) (fun c' => c11_sl_mremove T s c')))
+             (fun sc => c11_bind (c11_sl_mderef T (fst sc) (snd sc)) (fun x => C11_ok (Some x))) = C11_ok (Some (nth_error l (S k))).
+  Proof.
+    intros (cells & Hi & <-) Hk. rewrite map_length in Hk.
+    destruct (c11_split_at cells k (Nat.lt_le_incl _ _ Hk)) as (c1 & c2 & -> & Hl1).
+    destruct c2 as [| [b y] c2]; [rewrite app_length in Hk; simpl in Hk; lia |].
+    assert (Hspec : nth_error (map snd (c1 ++ (b, y) :: c2)) (S k) = match c2 with [] => None | (_, z) :: _ => Some z end).
+    { rewrite <- Hl1. replace (S (length c1)) with (length (c1 ++ [(b, y)])) by (rewrite app_length; simpl; lia).
+      replace (c1 ++ (b, y) :: c2) with ((c1 ++ [(b, y)]) ++ c2) by (rewrite <- app_assoc; reflexivity).
+      destruct c2 as [| [e z] r].
+      - apply nth_error_None. rewrite map_length, app_nil_r. lia.
+      - apply (nth_error_mid snd (c1 ++ [(b, y)]) (e, z) r). }
+    rewrite Hspec. clear Hspec.
+    pose proof Hi as [(Hch & _) _].
+    unfold c11_sl_mbegin, c11_sl_next. rewrite (chain_head _ _ _ _ Hch). simpl.
+    pose proof (madvance_ok' s c1 [] ((b, y) :: c2)) as Hm. simpl in Hm. rewrite Hl1 in Hm. rewrite Hm by exact Hch. simpl.
+    unfold c11_sl_mremove. cbn [fst snd].
+    unfold c11_sl_next. rewrite (chain_item _ _ _ _ _ _ _ Hch). simpl.
+    destruct (deleteNext_inv s c1 b y c2 Hi) as (s' & Hd & Hi' & _). rewrite Hd. simpl.
+    pose proof Hi' as [(Hch' & _) _].
+    unfold c11_sl_mderef. cbn [fst snd].
+    destruct c2 as [| [e z] r]; cbn [hd_addr].
+    - reflexivity.
+    - unfold c11_sl_item. rewrite (chain_item _ _ _ _ _ _ _ Hch'). reflexivity.
+  Qed.
+
+  Lemma mend_probe_ok s l v : Rsl s l ->
+    c11_bind (c11_sl_minsert T s (c11_sl_mend T s) v)
+             (fun sc => c11_bind (c11_sl_mderef T (fst sc) (snd sc)) (fun x => C11_ok (Some x))) = C11_ok (Some None).
+  Proof.
+    intros (cells & Hi & <-). pose proof Hi as [_ Htl].
+    unfold c11_sl_mend, c11_sl_minsert. cbn [fst snd]. rewrite Htl.
+    rewrite <- (app_nil_r cells) in Hi.
+    destruct (insertAfter_ok s cells [] v Hi) as (s' & Hins & Hi' & _). rewrite Hins. simpl.
+    pose proof Hi' as [(Hch' & _) _].
+    replace (cells ++ [(sl_free s, v)]) with (cells ++ [(sl_free s, v)] ++ []) in Hch' by reflexivity.
+    destruct (chain_split _ _ _ _ _ Hch') as [xt Ht]. unfold c11_sl_next. rewrite Ht. simpl. reflexivity.
+  Qed.
+
+  Lemma probe_ok : forall w ws o ws', Rw w ws -> c11_sls_step T ws o = Some ws' ->
+    c11_sl_probe T w o = C11_ok (c11_sls_probe T ws o).
+  Proof.
+    intros w ws o ws' HR Hs. destruct o; cbn [c11_sls_step c11_sl_probe c11_sls_probe] in *; try reflexivity.
+    - destruct (k <=? length (if i then snd ws else fst ws)) eqn:Ek; [| discriminate]. apply Nat.leb_le in Ek.
+      apply mins_probe_ok; auto. apply sel_R; auto.
+    - destruct (k <? length (if i then snd ws else fst ws)) eqn:Ek; [| discriminate]. apply Nat.ltb_lt in Ek.
+      apply mrem_probe_ok; auto. apply sel_R; auto.
+    - eapply mend_probe_ok. apply (sel_R w ws i HR).
+  Qed.
+
+  Definition Rw2 (w : c11_sl_world2 T) (ws : c11_sls_world2 T) : Prop := Rw (fst w) (fst ws) /\ snd w = snd ws.
+
+  Lemma sl_step_sim2 : forall w ws o ws', Rw2 w ws -> c11_sls_step2 T ws o = Some ws' ->
+    exists w', c11_sl_step2 T d true w o = C11_ok w' /\ Rw2 w' ws'.
+  Proof.
+    intros [w p] [ws ps] o ws' [HR Hp] Hs. cbn [fst snd] in *. unfold c11_sls_step2 in Hs. cbn [fst snd] in Hs.
+    destruct (c11_sls_step T ws o) as [ws1 |] eqn:E; [| discriminate]. injection Hs as <-.
+    destruct (sl_step_sim w ws o ws1 HR E) as (w1 & Hw & HR1).
+    unfold c11_sl_step2. cbn [fst snd]. rewrite (probe_ok w ws o ws1 HR E). simpl. rewrite Hw. simpl.
+    eexists; split; [reflexivity |]. split; auto.
+  Qed.
+
+  Lemma sl_observe_sim2 : forall w ws, Rw2 w ws -> c11_sl_observe2 T teq w = C11_ok (c11_sls_observe2 T teq ws).
+  Proof.
+    intros [w p] [ws ps] [HR Hp]. cbn [fst snd] in *. subst ps. unfold c11_sl_observe2, c11_sls_observe2. cbn [fst snd].
+    rewrite (sl_observe_sim w ws HR). reflexivity.
+  Qed.
+
+  Theorem c11_sllist_modify_iterator_lemma : forall ops tr,
+    c11_sls_run2 T teq (([], []), None) ops = map Some tr ->
+    c11_sl_run2 T d teq true ((c11_sl_empty T d, c11_sl_empty T d), None) ops = map C11_ok tr.
+  Proof.
+    intros ops tr. unfold c11_sls_run2, c11_sl_run2.
+    apply (c11_sim_run _ _ _ _ _ _ _ _ Rw2 sl_step_sim2 sl_observe_sim2).
+    split; [split; apply R_empty | reflexivity].
+  Qed.
 End SLP.
